@@ -37,12 +37,13 @@ import (
 
 // smallProbe is the shared bookkeeping of the scripted probe sequences.
 type smallProbe struct {
-	r     *ev.Run
-	rc    *reach
-	pkg   string
-	log   []string
-	dead  bool
-	probe func() []string
+	progress atomic.Int64
+	r        *ev.Run
+	rc       *reach
+	pkg      string
+	log      []string
+	dead     bool
+	probe    func() []string
 }
 
 func errStatus(err error) string {
@@ -57,6 +58,7 @@ func errStatus(err error) string {
 
 // after records that fn returned st and probes all locks of the object.
 func (p *smallProbe) after(fn, st string) bool {
+	p.progress.Add(1)
 	if p.dead {
 		return false
 	}
@@ -510,7 +512,18 @@ func runSmallObjectProbes(r *ev.Run, rc *reach) {
 		probeIdleInvoker(r, rc, i)
 		probeSectorAllocator(r, rc, i)
 	}
-	probeScheduler(r, rc)
+	// Scripted sequences keep calling after a lock was found held (they
+	// cannot know which later call needs it), so each runs as a one-worker
+	// round: a call that blocks for ever becomes a hang verdict instead of
+	// stalling the whole check.
+	for name, f := range map[string]func(){
+		"scheduler-probe":        func() { probeScheduler(r, rc) },
+		"unwrapped-file-probe":   func() { probeUnwrappedFile(r, rc) },
+		"handle-allocator-probe": func() { probeHandleAllocators(r, rc) },
+	} {
+		var progress atomic.Int64
+		runRound(r, name, nil, &progress, []func(){f})
+	}
 	r.Floor("probed-after-error-return:cleaner", 10)
 	r.Floor("probed-after-error-return:pool", 10)
 	r.Floor("probed-after-error-return:scheduler", 10)
